@@ -54,14 +54,18 @@ def recLine (r : GRec) : Line := r.lead ++ (core r ++ commentText r.comment)
 inductive Filler where
   | blank (ws : List Char)
   | comment (ws text : List Char)
-  /-- a global option line (`-r other.txt`, `--index-url …`, `-e .`): starts with '-' -/
+  /-- a global option line (`--index-url …`, `-e .`, `-c constraints.txt`, also free-form `-r …` text): starts with '-' -/
   | option (text : List Char)
+  /-- `-r<white space><path>`: the packages of that file belong to this one (Spec/Parsers/RequirementsTree.lean); for the
+  single-file theorem it is just another option line -/
+  | incl (sp target : List Char)
 deriving Repr
 
 def fillerLine : Filler → Line
   | .blank ws => ws
   | .comment ws t => ws ++ '#' :: t
   | .option t => '-' :: t
+  | .incl sp t => '-' :: 'r' :: (sp ++ t)
 
 structure Layout where
   before : Nat → List Filler := fun _ => []
@@ -114,10 +118,14 @@ instance (r : GRec) : Decidable (WFrec r) := by
         else isFalse (fun hh => h (hh w t rfl))
   infer_instance
 
+/-- characters of an include path -/
+def pathChar (c : Char) : Bool := isW c || c = '.' || c = '/' || c = '-'
+
 def WFfiller : Filler → Prop
   | .blank ws => spTab ws ∧ ws.length + 1 < maxTok
   | .comment ws t => spTab ws ∧ okText t ∧ (ws ++ '#' :: t).length + 1 < maxTok
   | .option t => okText t ∧ '#' ∉ t ∧ '$' ∉ t ∧ '\\' ∉ t ∧ t.length + 2 < maxTok
+  | .incl sp t => spTab sp ∧ t ≠ [] ∧ t.all pathChar = true ∧ t.head? ≠ some '-' ∧ sp.length + t.length + 3 < maxTok
 instance (f : Filler) : Decidable (WFfiller f) := by cases f <;> (unfold WFfiller; infer_instance)
 
 def WF (rs : List GRec) : Prop := ∀ r ∈ rs, WFrec r
